@@ -152,8 +152,8 @@ def contains_sym(v, depth=6, seen=None):
     if isinstance(v, dict):
         return any(contains_sym(k, depth - 1, seen) or contains_sym(x, depth - 1, seen)
                    for k, x in v.items())
-    if isinstance(v, (Closure, Coro, Opaque)):
-        return False
+    if isinstance(v, (Closure, Coro, Opaque)) or getattr(v, "__symex_opaque__", False) is True:
+        return False  # engine / harness infrastructure, never program data
     if isinstance(v, types.MethodType):
         return contains_sym(v.__self__, depth - 1, seen)
     d = getattr(v, "__dict__", None)
